@@ -135,7 +135,7 @@ def behaviours_from_tlc(chk, cfgname, seed, timeout=3600):
     return out
 
 
-def rand_instance(rng, maxn=6, maxT=6, allow=('ne', 'W', 'nodes', 'cuts', 'linked', 'skip', 'second')):
+def rand_instance(rng, maxn=6, maxT=6, allow=('ne', 'W', 'nodes', 'cuts', 'linked', 'skip', 'second'), p_edges=0.6):
     n = rng.randint(2, maxn)
     nodes = list(range(1, n + 1))
     nbrs = {i: [] for i in nodes}
@@ -151,7 +151,7 @@ def rand_instance(rng, maxn=6, maxT=6, allow=('ne', 'W', 'nodes', 'cuts', 'linke
             if i not in nbrs[i]:
                 nbrs[i].append(i)
     T = rng.randint(1, maxT)
-    only_edges = True if 'nodes' not in allow else rng.random() < 0.6
+    only_edges = True if 'nodes' not in allow else rng.random() < p_edges
     edges = [(a, b) for a in nodes for b in nbrs[a] if a != b]
     states = edges + ([] if only_edges else [(a,) for a in nodes])
     vals = rng.choice([[0, -2], [0, -1, -3], [0, -1, -2, -5], [0, 0, -1, -4]])
@@ -320,7 +320,7 @@ PLAN = {
     'C03': dict(mc='LatticeMC_C03', emit='LatticeMC_ALLe', rnd=(400, 6000), allow=('ne', 'W', 'nodes', 'cuts', 'linked', 'skip', 'second'), kinds=('extend', 'widen'), aux=()),
     'C04': dict(mc='LatticeMC_C04', emit='LatticeMC_ALLe', rnd=(400, 6000), allow=('ne', 'W', 'nodes', 'cuts', 'linked', 'skip', 'second'), kinds=('extend', 'widen'), aux=()),
     'C05': dict(mc='LatticeMC_C05', emit='LatticeMC_ALLe', rnd=(400, 6000), allow=('ne', 'W', 'nodes', 'cuts', 'linked', 'skip', 'second'), kinds=('extend', 'widen'), aux=()),
-    'C06': dict(mc='LatticeMC_C06', emit='LatticeMC_C06e', rnd=(400, 6000), allow=('ne', 'nodes', 'cuts', 'linked', 'skip'), kinds=(), aux=('C06',)),
+    'C06': dict(mc='LatticeMC_C06', emit='LatticeMC_C06e', rnd=(1800, 12000), allow=('ne', 'nodes', 'cuts', 'linked', 'skip'), kinds=(), aux=('C06',)),
     'C07': dict(mc='LatticeMC_C07', emit='LatticeMC_C07e', rnd=(400, 6000), allow=('ne', 'W', 'nodes', 'cuts', 'linked', 'skip', 'second'), kinds=('widen',), aux=('C07',)),
     'C08': dict(mc='LatticeMC_C08', emit='LatticeMC_C08e', rnd=(400, 6000), allow=('ne', 'W', 'nodes', 'cuts', 'linked', 'skip', 'second'), kinds=('extend',), aux=('C08',)),
     'C09': dict(mc='LatticeMC_C09', emit='LatticeMC_ALLe', rnd=(400, 6000), allow=('ne', 'W', 'nodes', 'cuts', 'linked', 'skip', 'second'), kinds=('extend', 'widen'), aux=()),
@@ -370,7 +370,8 @@ def run(chk):
         if 'ne' in plan['allow'] and rng.random() < 0.3:
             inst, cf = chain_instance(rng, plan['allow'])
         else:
-            inst, cf = rand_instance(rng, maxn=6 if thorough else 5, maxT=6 if thorough else 5, allow=plan['allow'])
+            inst, cf = rand_instance(rng, maxn=6 if thorough else 5, maxT=6 if thorough else 5, allow=plan['allow'],
+                                     p_edges=(0.3 if pid == 'C06' else 0.6))
         if pid == 'C06':
             cf['ne'] = True
         if pid == 'C07' and not cf['W']:
@@ -379,6 +380,14 @@ def run(chk):
         if pid == 'C01' and rng.random() < 0.6:
             # planted walk with decoys (node-and-edge states in most of them; labels incl. a falsy one)
             inst, cf = planted_instance(rng, ('nodes',))
+            ops = rand_ops(rng, inst.T, cf, plan['kinds'])
+        if pid == 'C06' and rng.random() < 0.5:
+            inst, cf = planted_instance(rng, ('nodes',))
+            cf['ne'] = True
+            for st in inst.states:          # cheap non-emitting steps so that detours compete with the planted walk
+                for t in range(inst.T):
+                    inst.lN[(st, t)] = -rng.choice([0, 0, 1, 2])
+                    inst.dN[(st, t)] = rng.choice([0, 1, 1, 2])
             ops = rand_ops(rng, inst.T, cf, plan['kinds'])
         if 'widen' in plan['kinds'] and 'W' in plan['allow'] and rng.random() < 0.35:
             # widening stress: start with width 1 on a dense graph and widen step by step
